@@ -27,8 +27,8 @@
 (*     ns_time         py  Namespace.j2 "Generated at: now_utc"             (closed = only with auditing)   *)
 (*     model_abspath   py  pickled _MODEL_ carries source_file_path         (closed = location-free)        *)
 (*     assert_abspath  c/cpp base.j2 static_assert message: T.source_file_path (closed = file name)         *)
-(*     model_cache     py  pickled _MODEL_ carries PyDSDL's lazily filled caches, i.e. which dependency has  *)
-(*                         already been rendered in this process            (closed = cache-free pickle)    *)
+(*     model_cache     py  pickled _MODEL_ carries PyDSDL's lazily filled caches, i.e. which of the type's   *)
+(*                         (transitive) dependencies this process has rendered before (closed = cache-free)  *)
 (*     pp_carry        LimitEmptyLines counter survives from one file to the next (closed = reset per file)  *)
 (*     include_order   c/cpp include list in composite_types iteration order (closed = sorted)               *)
 (*     html_order      html nested-namespace listing in set order            (closed = natural_sort)         *)
@@ -55,7 +55,7 @@ ASSUME /\ OpenSets \subseteq SUBSET Gates
        /\ Audits \subseteq BOOLEAN /\ SortedWalk \in BOOLEAN
        /\ Vary \subseteq {"clock", "loc", "cwd"}
 
-VARIABLES types, user, lang, audit, open,   \* the stimulus: inputs, options, which gates are open (fixed by Init)
+VARIABLES types, user, dep, lang, audit, open,   \* the stimulus: inputs, options, which gates are open (fixed by Init)
           amb,                               \* amb[r]: ambient state of run r
           run, pc,                           \* current run (3 = both finished), phase inside the run
           pend,                              \* loop 1: types not yet indexed
@@ -63,13 +63,13 @@ VARIABLES types, user, lang, audit, open,   \* the stimulus: inputs, options, wh
           todo,                              \* loop 2: names of namespace_index not yet visited
           kids,                              \* kids[n]: Namespace._nested_namespaces of n
           stack,                             \* the recursion of _recursive_data_type_and_namespace_generator
-          touched,                           \* process state: types whose lazily computed model caches are filled
+          touched,                           \* process state: types rendered so far (their model objects' lazy caches are filled)
           owner,                             \* process state: language whose filter owns the plain filter name
           order,                             \* files written by the current run, in order
           orders,                            \* orders[r]: the order of the completed run r (observation)
           fs                                 \* fs[r]: result of run r,  path |-> content
 
-vars == <<types, user, lang, audit, open, amb, run, pc, pend, idx, todo, kids, stack, touched, owner, order, orders, fs>>
+vars == <<types, user, dep, lang, audit, open, amb, run, pc, pend, idx, todo, kids, stack, touched, owner, order, orders, fs>>
 
 (* ---- the namespace universe: paths below the root namespace (root = <<>>)                               *)
 Root == <<>>
@@ -86,10 +86,10 @@ NsOf(T) == UNION {Prefixes(t[1]) : t \in T}
 Shapes == {T \in SUBSET Slots : /\ Cardinality(T) \in 1..MaxTypes
                                 /\ Cardinality(NsOf(T) \ {Root}) <= MaxNested}
 
-(* the designated type `user` (if any) has one field of every other type; nothing else has dependencies     *)
+(* Dependencies: without a designated type `user` nothing depends on anything; with one, either `user` has a field of  *)
+(* every other type (dep = "star") or `user` and the other types in rank order form a chain, each having a field of    *)
+(* the next one (dep = "chain").                                                                                       *)
 None == <<Root, 0>>
-Deps(t) == IF t = user THEN types \ {t} ELSE {}
-
 RECURSIVE SortT(_)
 SortT(S) == IF S = {} THEN <<>>
             ELSE LET m == CHOOSE x \in S : \A y \in S : TRank(x) <= TRank(y) IN <<m>> \o SortT(S \ {m})
@@ -97,6 +97,13 @@ RECURSIVE SortN(_)
 SortN(S) == IF S = {} THEN <<>>
             ELSE LET m == CHOOSE x \in S : \A y \in S : NsRank[x] <= NsRank[y] IN <<m>> \o SortN(S \ {m})
 Perms(S) == {s \in [1..Cardinality(S) -> S] : \A i, j \in 1..Cardinality(S) : i # j => s[i] # s[j]}
+
+Chain == <<user>> \o SortT(types \ {user})
+PosOf(t) == CHOOSE k \in 1..Len(Chain) : Chain[k] = t
+Deps(t) == IF dep = "star" THEN (IF t = user THEN types \ {t} ELSE {})
+           ELSE IF dep = "chain" THEN (IF PosOf(t) < Len(Chain) THEN {Chain[PosOf(t) + 1]} ELSE {})
+           ELSE {}
+DepsStar(t) == IF dep = "chain" THEN {Chain[k] : k \in (PosOf(t) + 1)..Len(Chain)} ELSE Deps(t)
 
 NsTypes == lang \in {"py", "html"}           \* a Namespace template exists only for these targets
 OtherLangs == {"c", "cpp", "py", "html"} \ {lang}
@@ -113,12 +120,13 @@ Fresh == /\ pc = "index" /\ pend = SortT(types) /\ idx = {} /\ todo = {} /\ kids
 Init ==
     /\ types \in Shapes
     /\ user \in types \cup {None}
+    /\ dep \in (IF user = None THEN {"none"} ELSE IF Cardinality(types) < 3 THEN {"chain"} ELSE {"star", "chain"})
     /\ lang \in Langs /\ audit \in Audits /\ open \in OpenSets
     /\ amb = <<A1, A1>>                          \* the ambient state of run 2 is chosen when run 2 starts
     /\ run = 1 /\ Fresh
     /\ orders = <<>> /\ fs = <<>>
 
-Stim == <<types, user, lang, audit, open>>
+Stim == <<types, user, dep, lang, audit, open>>
 
 (* ---- build_namespace_tree ----                                                                          *)
 IndexType ==
@@ -165,7 +173,7 @@ TypeContent(t, incl) ==
      includes |-> IF lang \in {"c", "cpp"} THEN incl ELSE <<>>,
      mpath    |-> IF lang = "py" /\ "model_abspath" \in open THEN A.loc ELSE 0,
      gz       |-> IF lang = "py" /\ "gzip_mtime" \in open THEN A.clock ELSE 0,
-     cache    |-> IF lang = "py" /\ "model_cache" \in open THEN touched \cap ({t} \cup Deps(t)) ELSE {},
+     cache    |-> IF lang = "py" /\ "model_cache" \in open THEN touched \cap DepsStar(t) ELSE {},
      lead     |-> Lead,
      owner    |-> owner]
 
@@ -208,7 +216,7 @@ EmitType ==
     /\ LET t == Head(Top.pt) IN
        /\ \E incl \in (IF "include_order" \in open THEN Perms(Deps(t)) ELSE {SortT(Deps(t))}) :
               Write(<<"type", t>>, TypeContent(t, incl), TRank(t) % 2)
-       /\ touched' = touched \cup {t} \cup Deps(t)
+       /\ touched' = touched \cup {t}
     /\ stack' = SetTop([Top EXCEPT !.pt = Tail(@)])
     /\ UNCHANGED <<Stim, amb, run, pc, pend, idx, todo, kids, owner, orders>>
 
@@ -244,7 +252,7 @@ Next == IndexType \/ IndexDone \/ Link \/ LinkDone \/ MakeEnv \/ GenSupport \/ E
 Spec == Init /\ [][Next]_vars
 
 (* ---- refinement: the P-layer history machine accepts the second run ----                                *)
-Key == <<types, user, lang, audit>>              \* (inputs, options); ambient state and gates are not in it
+Key == <<types, user, dep, lang, audit>>              \* (inputs, options); ambient state and gates are not in it
 Done == run = 3
 Verdict == Judge(TRUE, fs[1], audit, fs[2])
 Refines == Done => Verdict = "ok"
@@ -270,7 +278,8 @@ TypeOK == /\ run \in 1..3 /\ pc \in {"index", "link", "env", "support", "walk"}
 (* ---- emission (spec -> code) ----                                                                       *)
 DimOf == {d \in {"clock", "loc", "cwd"} : amb[1][d] # amb[2][d]}
 ShapeJson == [types |-> [i \in 1..Cardinality(types) |-> [ns |-> SortT(types)[i][1], k |-> SortT(types)[i][2]]],
-              user  |-> IF user = None THEN 0 ELSE CHOOSE i \in 1..Cardinality(types) : SortT(types)[i] = user]
+              user  |-> IF user = None THEN 0 ELSE CHOOSE i \in 1..Cardinality(types) : SortT(types)[i] = user,
+              dep   |-> dep]
 PathJson(p) == IF p[1] = "type" THEN [k |-> "type", ns |-> p[2][1], t |-> p[2][2]] ELSE [k |-> p[1], ns |-> p[2], t |-> 0]
 OrderJson(o) == [i \in 1..Len(o) |-> PathJson(<<o[i][1], o[i][2]>>)]
 
